@@ -334,6 +334,74 @@ func corruptions(r *rand.Rand, s string) []string {
 	return out
 }
 
+// lengthCorruptions replaces the length prefix of every length-delimited field of a valid encoding
+// (top level and nested metadata) by boundary values: the corruption a torn or bit-rotted length
+// field produces, chosen at the signed/unsigned 32- and 64-bit edges.
+func lengthCorruptions(b []byte) [][]byte {
+	var out [][]byte
+	bounds := [][]byte{
+		{0xff, 0xff, 0xff, 0xff, 0xff, 0xff, 0xff, 0xff, 0x7f},       // 2^63-1
+		{0xf6, 0xff, 0xff, 0xff, 0xff, 0xff, 0xff, 0xff, 0x7f},       // 2^63-10
+		{0x80, 0x80, 0x80, 0x80, 0x80, 0x80, 0x80, 0x80, 0x80, 0x01}, // 2^63
+		{0xff, 0xff, 0xff, 0xff, 0xff, 0xff, 0xff, 0xff, 0xff, 0x01}, // 2^64-1
+		{0xff, 0xff, 0xff, 0xff, 0x07},                               // 2^31-1
+		{0x80, 0x80, 0x80, 0x80, 0x08},                               // 2^31
+		{0xff, 0xff, 0xff, 0xff, 0x0f},                               // 2^32-1
+		{0x80, 0x80, 0x80, 0x80, 0x10},                               // 2^32
+	}
+	var walk func(base int, seg []byte, depth int)
+	walk = func(base int, seg []byte, depth int) {
+		i := 0
+		for i < len(seg) {
+			tag := seg[i]
+			if tag&0x80 != 0 {
+				return
+			}
+			i++
+			switch tag & 7 {
+			case 0:
+				for i < len(seg) && seg[i]&0x80 != 0 {
+					i++
+				}
+				i++
+			case 2:
+				ls := i
+				l := 0
+				sh := uint(0)
+				for i < len(seg) {
+					c := seg[i]
+					i++
+					l |= int(c&0x7f) << sh
+					sh += 7
+					if c&0x80 == 0 {
+						break
+					}
+					if sh > 28 {
+						return
+					}
+				}
+				if i+l > len(seg) || l < 0 {
+					return
+				}
+				for _, bd := range bounds {
+					v := append([]byte{}, b[:base+ls]...)
+					v = append(v, bd...)
+					v = append(v, b[base+i:]...)
+					out = append(out, v)
+				}
+				if depth == 0 && tag>>3 == 4 {
+					walk(base+i, seg[i:i+l], 1)
+				}
+				i += l
+			default:
+				return
+			}
+		}
+	}
+	walk(0, b, 0)
+	return out
+}
+
 // probeCorrupt: in-flight copies and stored values hit by corruption faults are fed to the real
 // parsers and decoders under recover; the copies are discarded afterwards (C12, C14).
 func (w *World) probeCorrupt(ev Event) bool {
@@ -415,6 +483,13 @@ func (w *World) probeCorrupt(ev Event) bool {
 			f := append([]byte{}, e.v...)
 			f[i] ^= byte(1 << uint(r.Intn(8)))
 			muts = append(muts, f, append([]byte{}, e.v[:i]...), append(append([]byte{}, e.v...), byte(r.Intn(256)), byte(r.Intn(256))))
+			if lc := lengthCorruptions(e.v); len(lc) > 0 {
+				r.Shuffle(len(lc), func(i, j int) { lc[i], lc[j] = lc[j], lc[i] })
+				if len(lc) > 6 {
+					lc = lc[:6]
+				}
+				muts = append(muts, lc...)
+			}
 		}
 		for _, mu := range muts {
 			mu := mu
